@@ -236,6 +236,38 @@ func (p *provCtx) addr(a ssa.Value, depth int) prov {
 				}
 			}
 		}
+		if worst != provOK {
+			// a struct copied whole from the input and then repaired field by field (v := in; v.f = clone(in.f)): as good
+			// as its fields when every reference-typed field is overwritten with a good value
+			if pt, ok := x.Type().Underlying().(*types.Pointer); ok {
+				if stt, ok := pt.Elem().Underlying().(*types.Struct); ok {
+					repaired := map[int]bool{}
+					for _, ref := range *x.Referrers() {
+						fa, ok := ref.(*ssa.FieldAddr)
+						if !ok {
+							continue
+						}
+						for _, r2 := range *fa.Referrers() {
+							if st, ok := r2.(*ssa.Store); ok && st.Addr == ssa.Value(fa) {
+								sub := &provCtx{fn: p.fn, seen: map[ssa.Value]bool{}}
+								if sub.of(st.Val, depth+1) == provOK {
+									repaired[fa.Field] = true
+								}
+							}
+						}
+					}
+					all := true
+					for i := 0; i < stt.NumFields(); i++ {
+						if isRefLike(stt.Field(i).Type(), 0) && !repaired[i] {
+							all = false
+						}
+					}
+					if all {
+						return provOK
+					}
+				}
+			}
+		}
 		return worst
 	case *ssa.Global:
 		return provOK
@@ -621,25 +653,41 @@ func hasClonerParam(c *Ctx, fd *ast.FuncDecl) bool {
 }
 
 func ruleClonePositional(c *Ctx, r *R) {
-	clone := c.Decl(c.LookupFunc("", "runtime.clone"))
 	g := c.LookupType("", "global")
-	if clone == nil || g == nil {
-		r.undecided("anchors", "-", "UNRESOLVED (*runtime).clone / struct global")
+	if g == nil {
+		r.undecided("anchors", "-", "UNRESOLVED struct global")
 		return
 	}
 	st := g.Underlying().(*types.Struct)
 	info := c.Otto().TypesInfo
+	// the literal that builds the copy's table: a global{...} whose elements are calls of cloner methods (wherever the
+	// clone code keeps it: in (*runtime).clone or in a helper of the cloner)
 	var lit *ast.CompositeLit
-	ast.Inspect(clone.Body, func(n ast.Node) bool {
-		if cl, ok := n.(*ast.CompositeLit); ok {
-			if nt := derefNamed(info.TypeOf(cl)); nt != nil && nt.Obj() == g.Obj() {
-				lit = cl
+	for _, f := range c.Otto().Syntax {
+		ast.Inspect(f, func(n ast.Node) bool {
+			cl, ok := n.(*ast.CompositeLit)
+			if !ok {
+				return true
 			}
-		}
-		return true
-	})
+			if nt := derefNamed(info.TypeOf(cl)); nt == nil || nt.Obj() != g.Obj() {
+				return true
+			}
+			for _, el := range cl.Elts {
+				var val ast.Expr = el
+				if kv, ok := el.(*ast.KeyValueExpr); ok {
+					val = kv.Value
+				}
+				if call, ok := unparen(val).(*ast.CallExpr); ok {
+					if sel, ok := unparen(call.Fun).(*ast.SelectorExpr); ok && isClonerType(info.TypeOf(sel.X)) {
+						lit = cl
+					}
+				}
+			}
+			return true
+		})
+	}
 	if lit == nil {
-		r.undecided("literal", c.Pos(clone.Pos()), "no global{...} literal in clone")
+		r.undecided("literal", "-", "no global{...} literal built from cloner calls in package otto")
 		return
 	}
 	r.check(len(lit.Elts) == st.NumFields(), "arity", c.Pos(lit.Pos()), fmt.Sprintf("%d elements", len(lit.Elts)), fmt.Sprintf("literal has %d elements for %d fields", len(lit.Elts), st.NumFields()))
@@ -659,7 +707,8 @@ func ruleClonePositional(c *Ctx, r *R) {
 		if call, ok := unparen(val).(*ast.CallExpr); ok && len(call.Args) == 1 {
 			if sel, ok := unparen(call.Fun).(*ast.SelectorExpr); ok && isClonerType(info.TypeOf(sel.X)) {
 				if a, ok := unparen(call.Args[0]).(*ast.SelectorExpr); ok {
-					if inner, ok := unparen(a.X).(*ast.SelectorExpr); ok && inner.Sel.Name == "global" {
+					// <something of type global or *global>.<field>
+					if nt := derefNamed(info.TypeOf(a.X)); nt != nil && nt.Obj() == g.Obj() {
 						got = a.Sel.Name
 					}
 				}
@@ -686,11 +735,12 @@ func ruleCloneRuntimeFields(c *Ctx, r *R) {
 	st := rtT.Underlying().(*types.Struct)
 	assigned := map[string]bool{}
 	for _, fn := range c.AllSrcFuncs("") {
-		if fn.Name() != "clone" || fn.Signature.Recv() == nil {
+		if fn.Signature.Recv() == nil {
 			continue
 		}
 		recv := fn.Signature.Recv().Type()
-		if !typeIs(recv, ottoPath, "runtime") && !typeIs(recv, ottoPath, "Otto") {
+		// the clone functions of the runtime and of Otto, and the methods of the cloner (which may hold part of the work)
+		if !(fn.Name() == "clone" && (typeIs(recv, ottoPath, "runtime") || typeIs(recv, ottoPath, "Otto"))) && !isClonerType(recv) {
 			continue
 		}
 		for _, b := range fn.Blocks {
@@ -699,8 +749,8 @@ func ruleCloneRuntimeFields(c *Ctx, r *R) {
 					if nt, f := fieldOfAddr(s.Addr); nt != nil && nt.Obj() == rtT.Obj() {
 						// only stores on the new runtime (not the receiver)
 						fa := s.Addr.(*ssa.FieldAddr)
-						if p, isParam := fa.X.(*ssa.Parameter); isParam && p == fn.Params[0] {
-							continue
+						if p, isParam := fa.X.(*ssa.Parameter); isParam && p == fn.Params[0] && !isClonerType(recv) {
+							continue // the runtime being copied (the receiver of clone), not the copy
 						}
 						assigned[f.Name()] = true
 					}
